@@ -2,8 +2,9 @@
 """record_seed.py <Cxx> <n> "<confirm RESULT line>" "<check outcome>" — copy a confirmed seeded change into /verif/seeded/<id>/"""
 import json, os, shutil, sys
 pid, n, confirm, outcome = sys.argv[1:5]
-src = '/tmp/wt_%s/SEED%s' % (pid, n)
-dst = '/verif/seeded/%s-%s' % (pid, n)
+root = os.environ.get('SEED_ROOT', '/tmp/wt_')
+src = '%s%s/SEED%s' % (root, pid, n)
+dst = '/verif/seeded/%s-%s' % (pid, int(n) + int(os.environ.get('SEED_OFFSET', '0')))
 os.makedirs(dst, exist_ok=True)
 for f in ('patch.diff', 'demo.rs'):
     shutil.copyfile(os.path.join(src, f), os.path.join(dst, f))
